@@ -8,6 +8,8 @@ CO = 'src/geo/coordinates.rs'
 MAIN = 'src/main.rs'
 MOD = 'src/prayer_times/mod.rs'
 HJ = 'src/hijri_date.rs'
+JD = 'src/geo/julian_day.rs'
+AS = 'src/geo/astro.rs'
 VARIANTS = [
     # ---------------------------------------------------------------- C08
     dict(id='c08-near-lat-drop-is-err', property='C08', expect=r'R8\.[23]', edits=[(EL,
@@ -311,4 +313,23 @@ pub struct Temperature(f64);""")]),
     dict(id='c17-accessor-wrong-field', property='C17', expect=r'R17\.1[23]', edits=[(HJ, '    pub fn day(&self) -> u8 {\n        self.day\n    }', '    pub fn day(&self) -> u8 {\n        self.month\n    }')]),
     dict(id='c17-refactor-silent', property='C17', expect=None, edits=[(HJ, 'let y_1 = (date.year() - 1) as f64;', 'let y_1 = f64::from(date.year()) - 1.;'),
                                                                         (HJ, 'year = -(year - 1);', 'year = 1 - year;')]),
+
+    # ---------------------------------------------------------------- C20
+    dict(id='c20-gmt-sign', property='C20', expect=r'R20\.1', edits=[(JD, '(date.day() as f64 - f64::from(gmt) / 24.)', '(date.day() as f64 + f64::from(gmt) / 24.)')]),
+    dict(id='c20-gmt-scale', property='C20', expect=r'R20\.1', edits=[(JD, '(date.day() as f64 - f64::from(gmt) / 24.)', '(date.day() as f64 - f64::from(gmt) / 12.)')]),
+    dict(id='c20-gmt-dropped', property='C20', expect=r'R20\.[12]|floor', edits=[(JD, '(date.day() as f64 - f64::from(gmt) / 24.)', '(date.day() as f64)')]),
+    dict(id='c20-gmt-twice', property='C20', expect=r'R20\.2', edits=[(JD, '        value.value\n', '        value.value - f64::from(value.gmt) / 24.\n')]),
+    dict(id='c20-transit-lon-sign', property='C20', expect=r'R20\.3', edits=[(HR, '        - f64::from(top_astro_day.coords().longitude)\n        - top_astro_day.astro().sid_time())',
+                                                                          '        + f64::from(top_astro_day.coords().longitude)\n        - top_astro_day.astro().sid_time())')]),
+    dict(id='c20-transit-lon-scale', property='C20', expect=r'R20\.3', edits=[(HR, '        - f64::from(top_astro_day.coords().longitude)\n        - top_astro_day.astro().sid_time())',
+                                                                           '        - 2. * f64::from(top_astro_day.coords().longitude)\n        - top_astro_day.astro().sid_time())')]),
+    dict(id='c20-hour-angle-lon-sign', property='C20', expect=r'R20\.3', edits=[(HR, '(sid_time_gw + f64::from(top_astro_day.coords().longitude) - ra_interp).cap_angle_between_180()',
+                                                                             '(sid_time_gw - f64::from(top_astro_day.coords().longitude) - ra_interp).cap_angle_between_180()')]),
+    dict(id='c20-topocentric-lon-sign', property='C20', expect=r'R20\.3', edits=[(AS, 'let hours = (astro.sid_time + f64::from(coords.longitude) - astro.ra)',
+                                                                              'let hours = (astro.sid_time - f64::from(coords.longitude) - astro.ra)')]),
+    dict(id='c20-hour-angle-ra-sign', property='C20', expect=r'R20\.3', edits=[(HR, '(sid_time_gw + f64::from(top_astro_day.coords().longitude) - ra_interp).cap_angle_between_180()',
+                                                                            '(ra_interp + f64::from(top_astro_day.coords().longitude) - sid_time_gw).cap_angle_between_180()')]),
+    dict(id='c20-refactor-silent', property='C20', expect=None, edits=[(HR, '    let m_0 = (top_astro_day.astro().ra()\n        - f64::from(top_astro_day.coords().longitude)\n        - top_astro_day.astro().sid_time())\n        / TWO_PI_DEG;',
+                                                                        '    let lon = f64::from(top_astro_day.coords().longitude);\n    let m_0 = (top_astro_day.astro().ra() - (lon + top_astro_day.astro().sid_time())) / TWO_PI_DEG;'),
+                                                                       (JD, '(date.day() as f64 - f64::from(gmt) / 24.)', '(f64::from(date.day()) - f64::from(gmt) / 24.)')]),
 ]
